@@ -12,6 +12,72 @@ COMMON_NOTE = ('Trusted base: Coq 8.16.1 kernel and vm_compute (no native_comput
                'Gallina model, tied to /repo on every run by regenerated tables and a differential run.')
 
 CLAIMS = {
+    'C01': dict(
+        technique='Rocq proof over writer/parser tables regenerated from the XML code (name-level agreement, literal values, '
+                  'table-driven round trip of the regular rows, ID and time codecs; partial) + write-parse-write differential run on libadm',
+        text='Partial. Proved (Props/Properties_C01.v) on tables regenerated on every run from rapidxml_formatter.cpp, '
+             'document_parser.cpp and frame_header_parser.cpp: every statement of the format/parse functions is classified; '
+             'every attribute, sub-element and IDRef a format function emits under a literal name is read, in the same '
+             'syntactic class and for the same parameter, by its parse function; every literal attribute value the writer '
+             'uses is a literal the parser compares with; for the regular rows (one attribute or text sub-elements under a '
+             'unique name; 97 rows at present) the table-driven reader returns what the table-driven writer emitted and '
+             're-writing gives the same element, for all values; ID and time texts are read back as the same values (C10, '
+             'C15). Not proved: rapidxml printing/lexing, the irregular format functions, reference resolution - the full '
+             'statement is decided on libadm by write -> parse -> write over API histories with random valid values for '
+             'every settable parameter (tables generated from the headers), common-definition references, four configurations.',
+        design='8 C01'),
+    'C02': dict(
+        technique='Rocq proof of the converse table coverage and the regular-row round trip (partial) + parse-write-parse '
+                  'differential run on grammar-generated files and tests/test_data',
+        text='Partial. Proved (Props/Properties_C02.v): every attribute, sub-element and IDRef a parse function looks for is '
+             'emitted by the paired format function (tables regenerated on every run; documented stubs listed in '
+             'tools/xml_pairs.py); regular rows round-trip for all values. The full statement is decided on libadm: files from '
+             'a grammar-based generator independent of the writer (tools/admxmlgen.py) and every file under tests/test_data '
+             'are parsed, written and parsed again, and the two documents are compared through every public accessor '
+             '(values at six decimals), with structural shrinking of failing files.',
+        design='8 C02'),
+    'C07': dict(
+        technique='Rocq proof of termination of the node searches on a regenerated navigation inventory (partial) + '
+                  'ASan/UBSan run of every parser entry point on generated and mutated inputs with a time limit',
+        text='Partial by nature: memory safety and undefined behaviour belong to the compiled C++. Proved '
+             '(Props/Properties_C07.v): every sibling loop of the parsers advances its own cursor and every recursive search '
+             'descends into children (inventory regenerated from the sources); on the tree model such loops terminate within '
+             'one step per sibling and such searches within the depth of the tree, and the excluded loop shape diverges; the '
+             'ID and time parsers reject texts of the wrong length before indexing. Explored: every entry point and option '
+             'set on valid files and frames, structure-aware garbage, nesting to 256, byte mutations, up to 64 KiB, in an '
+             'ASan+UBSan build with a time limit; returned documents are checked against the invariants of C03/C05/C06/C12.',
+        design='8 C07'),
+    'C08': dict(
+        technique='Rocq proof on a phase model of the parser (duplicate IDs, dangling references) tied by table checkers to '
+                  'the regenerated parser tables + fault injection at every site of generated files on libadm',
+        text='Proved (Props/Properties_C08.v): in the model of DocumentParser::parse() as two list programs, a file with two '
+             'elements of one kind sharing an ID is rejected wherever they stand (and only such files are rejected by that '
+             'phase), and a reference naming no element is rejected at any position of any table; the regenerated tables '
+             'show that every dispatched element parser executes the duplicate check directly after reading the ID, that '
+             'all fifteen pending tables are filled by dispatched parsers and resolved, and that every resolver throws on a '
+             'miss. Type/format contradictions, the track-UID exclusion, block-format IDs, mandatory attributes and validated '
+             'ranges are decided by injecting each fault at every site (first/middle/last) of generated valid files.',
+        design='8 C08'),
+    'C13': dict(
+        technique='Rocq proof over a regenerated inventory of associative containers and a model of the pending reference '
+                  'tables + runs under a perturbing allocator (different address orders)',
+        text='Proved (Props/Properties_C13.v): no associative container keyed by a pointer (or by a template parameter '
+             'instantiated with one) is iterated anywhere in libadm and no owner-based pointer order is used (inventory '
+             'regenerated from all sources and headers); the parser\'s pending reference tables iterate in first-insertion '
+             'order for every layout, and renaming handles only renames that order. Pointer comparisons outside containers '
+             'and the real allocator are covered by the run: the same bytes parsed and written, and the same API histories '
+             'replayed, under several seeded address layouts of a replaced operator new, XML compared byte for byte.',
+        design='8 C13'),
+    'C19': dict(
+        technique='Rocq proof of the time reference rule on a model of the block time formatter/parser, of the frameFormatID '
+                  'codec and of the header table agreement (partial) + SADM frame write-parse-write differential run',
+        text='Partial. Proved (Props/Properties_C19.v): the frame header format and parse functions agree on every literal '
+             'name in both directions (regenerated tables); short and long frameFormatIDs round-trip; block times are written '
+             'under the names of the header\'s time reference, read back unchanged with that header, rejected with a header of '
+             'the other reference as soon as a block has a start or duration, accepted when the mismatch is permitted; every '
+             'block format pair carries the four time attributes. The byte-level round trip of whole frames (random headers '
+             'with changedIDs, profiles, transport track formats; four writer option sets) and the rejection rule are run on libadm.',
+        design='8 C19'),
     'C10': dict(
         technique='Rocq proof over generated ID descriptors + extracted-model/libadm differential run',
         text='Theorems (Props/Properties_C10.v) hold for every descriptor regenerated from the IdTraits/IdSection '
